@@ -733,15 +733,19 @@ func c06Fifo(p *core.Program, r *core.Report) {
 			continue
 		}
 		var takes []string
-		ast.Inspect(fi.Decl.Body, func(n ast.Node) bool {
-			if call, ok := n.(*ast.CallExpr); ok {
-				s := stripSpaces(types.ExprString(call.Fun))
-				if strings.Contains(s, ".Queue.") && strings.Contains(s, "Get") {
-					takes = append(takes, s[strings.LastIndex(s, ".")+1:])
+		// the drain and the unexported same-receiver helpers it is split into
+		drain := sameRecvClosure(p, fi, 3)
+		for _, df := range drain {
+			ast.Inspect(df.Decl.Body, func(n ast.Node) bool {
+				if call, ok := n.(*ast.CallExpr); ok {
+					s := stripSpaces(types.ExprString(call.Fun))
+					if strings.Contains(s, ".Queue.") && strings.Contains(s, "Get") {
+						takes = append(takes, s[strings.LastIndex(s, ".")+1:])
+					}
 				}
-			}
-			return true
-		})
+				return true
+			})
+		}
 		ok := len(takes) > 0
 		for _, t := range takes {
 			if t != "GetTimeout" && t != "GetNoWait" && t != "Get" {
@@ -751,15 +755,17 @@ func c06Fifo(p *core.Program, r *core.Report) {
 		// the drain only takes: putting a pack back (at the tail, behind packs accepted later) breaks
 		// the acceptance order and can duplicate frames after a reconnect
 		var puts []string
-		ast.Inspect(fi.Decl.Body, func(n ast.Node) bool {
-			if call, isCall := n.(*ast.CallExpr); isCall {
-				s := stripSpaces(types.ExprString(call.Fun))
-				if strings.Contains(s, ".Queue.") && (strings.Contains(s, "Put") || strings.Contains(s, "Add")) {
-					puts = append(puts, s[strings.LastIndex(s, ".")+1:]+" at "+p.Pos(call.Pos()))
+		for _, df := range drain {
+			ast.Inspect(df.Decl.Body, func(n ast.Node) bool {
+				if call, isCall := n.(*ast.CallExpr); isCall {
+					s := stripSpaces(types.ExprString(call.Fun))
+					if strings.Contains(s, ".Queue.") && (strings.Contains(s, "Put") || strings.Contains(s, "Add")) {
+						puts = append(puts, s[strings.LastIndex(s, ".")+1:]+" at "+p.Pos(call.Pos()))
+					}
 				}
-			}
-			return true
-		})
+				return true
+			})
+		}
 		why := "the drain does not take from the head of the queue"
 		if len(puts) > 0 {
 			ok = false
@@ -793,4 +799,38 @@ func hasCaller(tl *locks.TypeLocks, f *types.Func) bool {
 		}
 	}
 	return false
+}
+
+// sameRecvClosure: fi and the unexported methods of the same receiver type it calls (transitively, up
+// to depth), each once.
+func sameRecvClosure(p *core.Program, fi *core.FuncInfo, depth int) []*core.FuncInfo {
+	rt := core.RecvNamed(fi.Obj)
+	seen := map[*core.FuncInfo]bool{}
+	var out []*core.FuncInfo
+	var walk func(f *core.FuncInfo, d int)
+	walk = func(f *core.FuncInfo, d int) {
+		if f == nil || f.Decl.Body == nil || seen[f] {
+			return
+		}
+		seen[f] = true
+		out = append(out, f)
+		if d >= depth || rt == nil {
+			return
+		}
+		info := f.Pkg.TypesInfo
+		ast.Inspect(f.Decl.Body, func(n ast.Node) bool {
+			if call, ok := n.(*ast.CallExpr); ok {
+				if fn := calleeFunc(info, call); fn != nil && !fn.Exported() {
+					if cf := p.FuncOf(fn); cf != nil {
+						if n2 := core.RecvNamed(cf.Obj); n2 != nil && n2.Obj() == rt.Obj() {
+							walk(cf, d+1)
+						}
+					}
+				}
+			}
+			return true
+		})
+	}
+	walk(fi, 0)
+	return out
 }
